@@ -19,8 +19,7 @@ Hypotheses that occur:
   For an OBJECT that never got user weights the hypothesis is discharged by `C09_object_history_keeps_symmetric_weights`: whichever
   API function is called first (each has its own copy of the lazy `compute_weights` block), whatever grid spacings the images of
   the later calls have and however often `set_up` is called in between, the weights the object holds are symmetric and non-negative —
-  so all `…_partial` theorems apply to every state such an object can reach, the stale one
-  (`C09_default_weights_stale_after_set_up_fails`) included.  For weights given with `weights :=` and an even size in some dimension the
+  so all `…_partial` theorems apply to every state such an object can reach.  For weights given with `weights :=` and an even size in some dimension the
   index range is not symmetric; `C09_even_weights_are_zero_padded` says that value, gradient and Hessian-times-vector are those of the
   symmetric range with zeros appended, to which the theorems then apply (if the padded weights are symmetric).
 No hypothesis on the centre weight `w 0 0 0` is needed any more (`C09_nonzero_centre_weight_is_covered`).
@@ -433,13 +432,13 @@ theorem C09_object_history_keeps_symmetric_weights (kind : Nat) (only2DArg : Boo
     weightsEmpty o.wb = true ∨ (SymWeights o.wb o.w ∧ ∀ dz dy dx, InBox o.wb dz dy dx → 0 ≤ o.w dz dy dx) :=
   history_invariant l hl _ (Or.inl (by simp only [NbPrior.ctor]; decide))
 
-/-- NEGATIVE witness ("every voxel spacing", known finding `neighbourhood-priors:default-weights-stale-after-set_up-with-other-voxel-size`):
+/-- "every voxel spacing" (after repair C09-4; before it the first value was 2, the weight of the y-neighbour still being 1):
     `QuadraticPrior(false, 1)` used once with an image of voxel size (1,1,1), set up again and asked for the value of the 1×2×1 image
-    `(3, 1)` of voxel size (z,y,x) = (1,2,1) answers 2 (weight of the y-neighbour still 1); a fresh object answers 1 (weight
-    x-size / distance = 1/2).  Replayed on the implementation by the harness. -/
-theorem C09_default_weights_stale_after_set_up_fails :
+    `(3, 1)` of voxel size (z,y,x) = (1,2,1) answers 1 as a fresh object does (weight x-size / distance = 1/2).  Replayed on the
+    implementation by the harness. -/
+theorem C09_default_weights_recomputed_after_set_up :
     (((NbPrior.ctor 0 false (1 : ℝ) 0 0 0).call sDflt 1 1 1 (fun _ => ())).1.setUp.call sDflt 1 2 1
-        (fun o => qValue o.pf o.w o.kappa sB o.wb sLam)).2 = 2
+        (fun o => qValue o.pf o.w o.kappa sB o.wb sLam)).2 = 1
     ∧ ((NbPrior.ctor 0 false (1 : ℝ) 0 0 0).call sDflt 1 2 1 (fun o => qValue o.pf o.w o.kappa sB o.wb sLam)).2 = 1 :=
   stale_witness
 
